@@ -226,6 +226,12 @@ func SplitStatementToPieces(blob string) (pieces []string, err error) {
 			return
 		default:
 			emptyStatement = false
+			// a byte no token starts with (a control byte outside a literal) comes back as
+			// 'invalid' without being consumed: step over it, otherwise this loop never ends.
+			// It stays in the piece, whose parse reports it.
+			if tkn == invalid && tokenizer.r.pos().Offset == pos.Offset && !tokenizer.r.eof() {
+				tokenizer.r.inc()
+			}
 		}
 	}
 	return
